@@ -359,3 +359,43 @@ Proof.
     try (eexists; vm_compute; reflexivity).
   eexists; split; [vm_compute; reflexivity | repeat constructor].
 Qed.
+
+(* =========================================================================================== *)
+(** * Normalizer as REGENERATED FROM sknetwork/linalg/operators.py
+
+    [src_normalizer_*] (Gen/NpNormalizer.v) are Normalizer(adjacency, regularization)._matvec / _rmatvec (constructor and
+    method composed) for a 1-D and for a 2-D operand, translated on every run by harness/translators/npvec.py into the
+    array language of Model/NpVec.v.  Over R, for EVERY matrix (index function), every regularization >= 0 and every
+    operand, each of the four terms denotes the product with the dense matrix
+    N_ij = pinv(sum_j' A_ij' + reg) * (A_ij + reg / n_col), resp. with its transpose. *)
+From SKN Require Import Model.NpExpr Model.NpVec Gen.NpNormalizer Proofs.NpVecProofs Proofs.NpNormalizerProofs.
+From Coq Require Import Reals Lra.
+Local Open Scope R_scope.
+
+Theorem source_normalizer_matvec_1d (n k : nat) (A : nat -> nat -> R) (reg : R) (x : nat -> R) :
+  0 <= reg ->
+  exists f, rvdenote (env_nv n k A reg k x) src_normalizer_matvec_1d = Some (WV n f) /\
+            forall i, (i < n)%nat -> f i = lsum (seq 0 k) (fun j => ndense k A reg i j * x j).
+Proof. exact (NpNormalizerProofs.source_normalizer_matvec_1d n k A reg x). Qed.
+Print Assumptions source_normalizer_matvec_1d.
+
+Theorem source_normalizer_rmatvec_1d (n k : nat) (A : nat -> nat -> R) (reg : R) (y : nat -> R) :
+  0 <= reg ->
+  exists f, rvdenote (env_nv n k A reg n y) src_normalizer_rmatvec_1d = Some (WV k f) /\
+            forall j, (j < k)%nat -> f j = lsum (seq 0 n) (fun i => ndense k A reg i j * y i).
+Proof. exact (NpNormalizerProofs.source_normalizer_rmatvec_1d n k A reg y). Qed.
+Print Assumptions source_normalizer_rmatvec_1d.
+
+Theorem source_normalizer_matvec_2d (n k m : nat) (A : nat -> nat -> R) (reg : R) (X : nat -> nat -> R) :
+  0 <= reg ->
+  exists f, rvdenote (env_nm n k A reg k m X) src_normalizer_matvec_2d = Some (WM n m f) /\
+            forall i c, (i < n)%nat -> f i c = lsum (seq 0 k) (fun j => ndense k A reg i j * X j c).
+Proof. exact (NpNormalizerProofs.source_normalizer_matvec_2d n k m A reg X). Qed.
+Print Assumptions source_normalizer_matvec_2d.
+
+Theorem source_normalizer_rmatvec_2d (n k m : nat) (A : nat -> nat -> R) (reg : R) (Y : nat -> nat -> R) :
+  0 <= reg ->
+  exists f, rvdenote (env_nm n k A reg n m Y) src_normalizer_rmatvec_2d = Some (WM k m f) /\
+            forall j c, (j < k)%nat -> f j c = lsum (seq 0 n) (fun i => ndense k A reg i j * Y i c).
+Proof. exact (NpNormalizerProofs.source_normalizer_rmatvec_2d n k m A reg Y). Qed.
+Print Assumptions source_normalizer_rmatvec_2d.
